@@ -38,7 +38,7 @@ def _job(job: Tuple[str, str, str, str]) -> dict:
         # keywords forced to lower case: nearly every fixture gets rewritten, so the fixed texts are worth comparing
         cfg += [f"rules = {FIX_RULES}", "[sqlfluff:rules:capitalisation.keywords]", "capitalisation_policy = lower"]
     plan = {"root_cfg": "\n".join(cfg) + "\n", "byte_limit": None, "char_limit": None,
-            "files": [{"rel": "d1/q1.sql", "text": text, "nested_cfg": None, "nbytes": len(raw), "nchars": len(text)}]}
+            "files": [{"rel": "d1/q1.sql", "text": text, "nested_cfg": None, "nbytes": len(raw), "nchars": len(text), "byte_limit": 0}]}
     rec = {"id": cid, "cmd": cmd, "feu": False, "nofail": False, "skipfail": False, "procs": 1, "limkind": "none",
            "runaway": 0, "cfgsrc": "root", "cfgitem": "all", "family": "corpus",
            "files": [{"err": "corpus", "esup": dialect, "lint": os.path.basename(path), "lsup": cmd, "size": "na", "passes": 0}]}
